@@ -1360,7 +1360,7 @@ def falsify_stacked(mm, rng, fails, info_counts, force_terminal=None, plan_spec=
     # The evaluator (and its terminator) is a stateful object used for a whole Newton run: eval_jacob is called SEVERAL
     # times on the same object, at different points; every call must return the derivative of eval_func at ITS point.
     shifts_used = list(point_shifts) if point_shifts is not None else _draw_point_shifts(rng, mm.spec)
-    points = [("first", g0)] + [("later", g0 + np.array([sh * max(abs(v), 0.5) for v in g0])) for sh in shifts_used]
+    points = [("call", g0 + np.array([sh * max(abs(v), 0.5) for v in g0])) for sh in shifts_used]
     for call, (tag, g) in enumerate(points):
         try:
             f0 = F(g)
@@ -1404,10 +1404,10 @@ def falsify_stacked(mm, rng, fails, info_counts, force_terminal=None, plan_spec=
                 f"stacked:{terminal}{':plan' if plan_spec else ''}{':later-call' if call else ''}:{_culprit(info['trees'][eid])}",
                 f"stacked-time Jacobian entry [{r},{c}] (equation `{info['eqs'][eid].human}`, period {r // neq}, terminal={terminal}"
                 f"{', plan=' + str(plan_spec) if plan_spec else ''}; call number {call + 1} of eval_jacob on the same evaluator, "
-                f"points = initial guess shifted by {[0.0] + shifts_used[:call]} x max(|v|, 0.5)) is not the derivative of eval_func",
+                f"points = initial guess shifted by {shifts_used[:call + 1]} x max(|v|, 0.5)) is not the derivative of eval_func",
                 dict({"source": spec_source(mm.spec), "assign": mm.spec["values"], "periods": nper, "terminal": terminal,
                       "flat": bool(mm.spec.get("flat", False)), "plan": plan_spec or None,
-                      "solve_first": bool(mm.spec.get("stable", False)), "point_shifts": shifts_used[:call],
+                      "solve_first": bool(mm.spec.get("stable", False)), "point_shifts": shifts_used[:call + 1],
                       "data_seed": data_seed},
                      **({"context_src": mm.spec["context_src"]} if mm.spec.get("context_src") else {})),
                 float(J[r, c]), float(W[r, c]),
@@ -1418,10 +1418,16 @@ def falsify_stacked(mm, rng, fails, info_counts, force_terminal=None, plan_spec=
 
 
 def _draw_point_shifts(rng, spec) -> list:
-    """relative shifts of the whole vector of unknowns for the later calls on the same evaluator: both directions, so that
-    occasionally binding terms (maximum/minimum) are met on one branch first and on the other afterwards"""
-    k = rng.choice([1, 2, 2, 3]) if spec.get("stable") else rng.choice([0, 1, 1, 2])
-    return [rng.choice([-1, 1]) * rng.choice([0.125, 0.25, 0.375, 0.5]) for _ in range(k)]
+    """relative shifts of the whole vector of unknowns for the successive calls on the same evaluator (the first one is
+    the initial guess itself, except for some of the solved models): alternating directions, so that occasionally binding
+    terms (maximum) are met on one branch first and on the other afterwards, in either order"""
+    if not spec.get("stable"):
+        return [0.0] + [rng.choice([-1, 1]) * rng.choice([0.125, 0.25, 0.375, 0.5]) for _ in range(rng.choice([0, 1, 1, 2]))]
+    def amount(sign):
+        return rng.choice([0.5, 0.75, 1.0]) if sign > 0 else -rng.choice([0.25, 0.375, 0.5])
+    sg = rng.choice([-1, 1])
+    first = 0.0 if rng.random() < 0.4 else amount(-sg)
+    return [first] + [amount(sg * (-1) ** i) for i in range(rng.choice([1, 2, 2, 3]))]
 
 
 def gen_stable_spec(rng, obc=False) -> dict:
@@ -1440,8 +1446,8 @@ def gen_stable_spec(rng, obc=False) -> dict:
                          f"0.125*log({o}[+1]/{means[o]!r})", f"0.0625*(({o}/{means[o]!r})^2 - 1)"])
         if obc and (i == 0 or rng.random() < 0.5):
             # occasionally binding term: the ONLY lead of this equation sits inside maximum(), whose derivative is exactly
-            # zero on the inactive branch (kink constant c on either side of the steady state, 12-25% away from it)
-            c = means[o] * (1 + rng.choice([-1, 1]) * rng.choice([0.125, 0.1875, 0.25]))
+            # zero on the inactive branch (kink constant c on either side of the steady state, 0.125-0.19 away from it)
+            c = means[o] + rng.choice([-1, 1]) * rng.choice([0.125, 0.15625, 0.1875])
             at_ss = max(means[o], c)
             term = rng.choice([f"{b!r}*(maximum({o}[+1], {c!r}) - {at_ss!r})",
                                f"{b!r}*(maximum({o}[+1] - {c!r}, 0) - {at_ss - c!r})",
@@ -1452,7 +1458,7 @@ def gen_stable_spec(rng, obc=False) -> dict:
     values = {x: (means[x], 1.0 if x in logs else 0.0) for x in xs}
     values["p0"] = 0.5
     return {"xs": xs, "ps": ["p0"], "ys": [], "logs": logs, "teqs": teqs, "meqs": [], "values": values, "flat": True,
-            "stable": True}
+            "stable": True, "obc": bool(obc)}
 
 
 def falsify_terminal(ctx, fails, counts):
@@ -1474,7 +1480,8 @@ def falsify_terminal(ctx, fails, counts):
             continue
         mm = SimpleNamespace(spec=spec, m=m, info=info, rho=None, arr=arr, off=off)
         before = counts["stacked_models"]
-        falsify_stacked(mm, rng, fails, counts, force_terminal="first_order")
+        for _ in range(4 if spec.get("obc") else 1):
+            falsify_stacked(mm, rng, fails, counts, force_terminal="first_order")
         # the same model under simulation plans: exogenized points (often in the last simulated period) take spots out of
         # the unknowns, endogenized shocks add some: the terminal-condition columns must follow
         for _ in range(ctx.scale(2, 3)):
